@@ -900,6 +900,7 @@ pub fn run_c03(ctx: &Ctx) -> Report {
   verify_scenarios(ctx, &mut report);
   report.rule.push_str("; which directory is judged: --content / --base-directory / beside the torrent / standard input, each spelled with `.`, `..`, doubled and trailing separators, relative and absolute, names with separators, a decoy at every root not selected (announced root against the documented rule and against Imdlv.Paths.contentRoot)");
   super::paths::run(ctx, "C03", &mut report);
+  super::paths::algebra(ctx, &mut report);
   report
 }
 
